@@ -541,6 +541,46 @@ pub fn run_race(seed: u64, out: &str, args: &[String]) -> bool {
                 }
                 return Ok(());
             }
+            // template "eviction window" (every eighth case): a key whose deadline has passed, the sweeper caught INSIDE its
+            // eviction (after the visit, after the re-validation and the ledger step, or holding weight_used before the store step),
+            // one or two complete calls on that key (an upsert reviving it, a delete and a new put, a plain put), the sweeper released
+            if rng.chance(12) {
+                let ttl = rng.pick(&[1_000_000_000u128, 2_000_000_000]);
+                perform(&mut world, &Choice::Issue(1, Req::PutW(hot, 101, rng.pick(&[2i64, 3, 30.min(max)]), Some(ttl))), &mut sink)?;
+                settle(&mut world, &mut sink, None)?;
+                if rng.chance(30) { perform(&mut world, &Choice::Issue(1, Req::PutW(1, 102, 2, None)), &mut sink)?; settle(&mut world, &mut sink, None)?; }
+                // carry the clock past the deadline, to a second whose shard is the deadline's
+                perform(&mut world, &Choice::Advance(ttl as u64 + 1), &mut sink)?;
+                let depth = 1 + rng.below(4);   // 1: at the visit, 2: before kw.remove (the re-validation), 3: before wu.sub, 4: before store.remove
+                for _ in 0..depth {
+                    if !world.enabled("sweeper") { break; }
+                    perform(&mut world, &Choice::Role("sweeper".to_string()), &mut sink)?;
+                    if World::at("sweeper") == "sweep.begin" { break; }
+                }
+                for round in 0..(1 + rng.below(2)) {
+                    let client = 1 + (round as usize % 2);
+                    if world.pending_job[client] || World::at(&format!("c{}", client)) != "client.idle" { continue; }
+                    value += 1;
+                    let other_ttl = rng.pick(&[1_000_000_000u128, 2_000_000_000, 3_000_000_000]);
+                    let req = match rng.below(6) {
+                        0 => Req::Upsert(hot, None, None, Some(other_ttl), false),
+                        1 => Req::Upsert(hot, Some(value), None, Some(other_ttl), false),
+                        2 => Req::Upsert(hot, None, None, None, true),
+                        3 => Req::Upsert(hot, Some(value), None, None, false),
+                        4 => Req::Delete(hot),
+                        _ => Req::PutW(hot, value, 2, if rng.chance(50) { Some(other_ttl) } else { None }),
+                    };
+                    perform(&mut world, &Choice::Issue(client, req), &mut sink)?;
+                    settle(&mut world, &mut sink, Some("sweeper"))?;
+                }
+                settle(&mut world, &mut sink, None)?;
+                for req in [Req::Get(hot), Req::Weight] {
+                    if world.pending_job[1] || World::at("c1") != "client.idle" { break; }
+                    perform(&mut world, &Choice::Issue(1, req), &mut sink)?;
+                    settle(&mut world, &mut sink, None)?;
+                }
+                return Ok(());
+            }
             // 1. set-up: complete calls on the hot key (and sometimes a neighbour), then perhaps the clock past a deadline
             for _ in 0..rng.below(4) {
                 value += 1;
